@@ -48,7 +48,36 @@ fn gen_order_program(ch: &mut Ch) -> String {
 }
 
 fn gen_multi_error_program(ch: &mut Ch) -> String {
-    match ch.pick(5) {
+    match ch.pick(6) {
+        5 => {
+            // One group that re-binds several names already in scope (parameters, or earlier
+            // definitions of an enclosing group, or definitions of the same group).
+            let k = 2 + ch.pick(5);
+            let names: Vec<String> = (0..k).map(|i| format!("{}{i}", ["p", "é", "zed", "q_"][i % 4])).collect();
+            let mut s = String::new();
+            let via_lambda = ch.chance(1, 2);
+            for n in &names {
+                if via_lambda {
+                    s.push_str(&format!("({n} : int) => "));
+                } else {
+                    s.push_str(&format!("{n} = {}\n", ch.pick(9)));
+                }
+            }
+            let open = if via_lambda { "(" } else { "r = (" };
+            s.push_str(open);
+            // Re-definitions in a generated order, some of them twice.
+            let m = k + ch.pick(3);
+            for _ in 0..m {
+                let n = &names[ch.pick(names.len())];
+                s.push_str(&format!("{n} = {}{}", ch.pick(9), if ch.chance(1, 2) { "; " } else { "\n  " }));
+            }
+            s.push_str(&names.join(" + "));
+            s.push_str(")\n");
+            if !via_lambda {
+                s.push_str("r\n");
+            }
+            s
+        }
         0 => {
             // Several unbound names and re-bindings.
             let n = 2 + ch.pick(6);
